@@ -546,13 +546,9 @@ def strictness(ix, R, fams, table):
         ps = f.params()
         need(R, '3.determine', 'DOM', site,
              'the selector is removed from the section, lower-cased, and a missing selector is an error', f,
-             ['''
-try:
-    V_sel = V_cfg.pop(V_field).lower()
-except KeyError:
-    ...
-    raise KeyError
-''', 'V_k = V_fac(V_sel)', 'return (V_cfg, V_k, V_mix)'],
+             # (`pop(field)` without a default raises KeyError for a missing selector; a handler that only logs and
+             # re-raises KeyError is part of the same statement for sa/normalise.py)
+             ['V_sel = V_cfg.pop(V_field).lower()', 'V_k = V_fac(V_sel)', 'return (V_cfg, V_k, V_mix)'],
              binding={'V_cfg': ps[0], 'V_field': ps[1], 'V_fac': ps[2]},
              under=['len(V_split) == 1', 'len(V_split) > 1', 'len(V_split) >= 2', 'len(V_split) < 2', "V_sel == 'custom'"])
         # 'a+b+base': the base class is the LAST component, the mixins are the others in the order written (the order is
